@@ -453,6 +453,15 @@ impl Engine for Conv {
             _ => vec![],
         }
     }
+    fn echo(&self, _prop: &str, c: &Case) -> Option<Case> {
+        // single-layout operations only (for the pair operations `lay2` indexes a table of type pairs)
+        if !matches!(c.op, CONV_FI | CONV_IF | CONV_BF | CMP_FI | CMP_F32 | CMP_F64 | CMP_F16 | CMP_BF16 | CMP_SAME | F32_TO_FIX | F64_TO_FIX | FIX_TO_F32 | FIX_TO_F64) {
+            return None;
+        }
+        let mut s = c.clone();
+        s.lay = vcore::run::same_width_layout(c.lay, c.a as u64 ^ (c.b as u64).rotate_left(17) ^ c.op as u64);
+        if s.lay == c.lay { None } else { Some(s) }
+    }
     fn eval(&self, prop: &str, c: &Case, chk: bool, kf: &Kf) -> Eval {
         let mut ev = Eval::default();
         let (sl, dl) = layouts(c);
@@ -836,7 +845,7 @@ fn classify_float(k: FK, bits: u64, ev: &mut Eval) {
 }
 
 pub fn main_entry() {
-    std::process::exit(vcore::run::main_with(&Conv::new(), lay::is_chk()));
+    std::process::exit(vcore::run::main_with2(&Conv::new(), lay::is_chk(), lay::is_oc()));
 }
 
 /// Builds a well-formed case from raw fuzzer-chosen numbers (used by the coverage-guided target): the
